@@ -29,6 +29,9 @@ NilArrs == {Arr(s) : s \in SeqsUpTo({IntV(2), Nil, Str("a")}, 3)}
 H(a, t) == Hash(<< <<"a", a>>, <<"t", Str(t)>> >>)
 HashEls == {H(IntV(2), "u"), H(IntV(3), "v"), H(IntV(2), "w"), Hash(<< <<"t", Str("q")>> >>), H(Nil, "r")}
 HashArrs == {Arr(s) : s \in SeqsUpTo(HashEls, 3)}
+\* properties that Python takes for false and Liquid for true: 0, the empty string, an empty array
+ZeroEls == {H(IntV(0), "z"), H(Bool(FALSE), "f"), H(IntV(1), "o"), H(Str(""), "e"), H(Nil, "r"), H(Bool(TRUE), "y")}
+ZeroArrs == {Arr(s) : s \in SeqsUpTo(ZeroEls, 2)} \cup {Arr(<<H(IntV(0), "z"), H(Bool(FALSE), "f"), H(Str(""), "e"), H(Nil, "r")>>)}
 \* the same hash written with its keys in the other order: equal, so a duplicate
 HRev(a, t) == Hash(<< <<"t", Str(t)>>, <<"a", a>> >>)
 PermArrs == {Arr(<<H(IntV(2), "u"), HRev(IntV(2), "u"), H(IntV(3), "v")>>), Arr(<<HRev(IntV(3), "v"), H(IntV(2), "u"), H(IntV(3), "v"), HRev(IntV(2), "u")>>)}
@@ -154,6 +157,10 @@ LawKeyLambda == \A h \in HashArrs :
                   LET k == Ap(f, h, <<Str("a")>>)
                       l == ApL(f, LamWhere(XA), h) IN
                   (Ok(k) /\ Ok(l)) => k = l
+             /\ \A z \in ZeroArrs : \A f \in {"where", "reject", "find", "find_index", "has"} :
+                  LET k == Ap(f, z, <<Str("a")>>)
+                      l == ApL(f, LamWhere(XA), z) IN
+                  Ok(k) /\ Ok(l) /\ k = l
              /\ \A key \in {"a", "t"} : \A f \in {"map", "compact", "sort", "uniq", "sum"} :
                   LET k == Ap(f, h, <<Str(key)>>)
                       l == ApL(f, Lam(<<"x">>, VP("x", key)), h) IN
@@ -269,6 +276,7 @@ Apps ==
   \cup A1({"truncate"}, Strs, {IntV(0), IntV(2), IntV(3), IntV(10)})
   \cup A1({"map", "where", "reject", "find", "find_index", "has", "compact", "sort", "uniq", "sum"}, HashArrs, {Str("a"), Str("t")})
   \cup A2({"where", "reject", "find", "find_index", "has"}, HashArrs, {Str("a"), Str("t")}, {IntV(2), IntV(3), Str("u"), Nil, IntV(99)})
+  \cup A1({"where", "reject", "find", "find_index", "has"}, ZeroArrs, {Str("a")})
 
 Init == IF Mode = "laws" THEN app = [n |-> "-", l |-> Nil, args |-> <<>>, lam |-> FALSE] ELSE app \in Apps
 Next == UNCHANGED app
